@@ -157,7 +157,10 @@ fn part_a(ctx: &Ctx, r: &mut Report) {
     }
     // run-to-run determinism from the SAME state (nothing but the process differs): repeated 3 times
     for (i, op) in ops.iter().enumerate() {
-        for _ in 0..2 {
+        // (a compilation that iterates over a randomly seeded hash container differs from run to run with some
+        // probability only: joins over several shared columns are repeated more often)
+        let repeats = if matches!(op, Op::Compile(sql) if sql.contains("NATURAL") || sql.contains("USING")) { 8 } else { 2 };
+        for _ in 0..repeats {
             namer::reset();
             let again = op.run(&relations);
             r.evaluations += 1;
